@@ -623,6 +623,7 @@ class Session:
             DEFAULT_PRINTER.quiet = not DEFAULT_PRINTER.quiet
             self.log.add(self.steps, "Q", DEFAULT_PRINTER.quiet)
             self.bump("probe.quiet_flipped_midrun")
+            self.bump("fault.quiet_flipped_midrun")
             return
         if op == "R":
             if not self.suspended:
@@ -681,6 +682,7 @@ class Session:
                 a.open_gens += 1
                 self.suspended.append(rec)
                 self.bump("probe.generator_suspended")
+                self.bump("fault.iterator_suspended")
                 self._pull(rec, arg % 4, drop=False)
             else:
                 self.log.add(self.steps, "K-skip", tag)
@@ -714,6 +716,7 @@ class Session:
             if hasattr(g, "close"):
                 g.close()          # a generator; other iterators (itertools.chain) are simply dropped
             rec[3] = True
+            self.bump("fault.iterator_dropped")
             self.log.add(self.steps, "R-drop", ai, len(got))
         else:
             n = 0
